@@ -96,6 +96,23 @@ def client_step(w):
             if real_view(c) != view:
                 return {"reproduced": True, "detail": "client view differs from the reference after %s(device=%r, name=%r): %r vs %r"
                         % (m.__class__.__name__, getattr(m, "device", None), getattr(m, "name", None), real_view(c), view), "cases": cases}
+    # an update without a state attribute (#IMPLIED in the protocol's DTD): the property keeps its state, the listed elements change
+    from indi.transport.buffer import Buffer
+    c = SnoopingClient(None)
+    b = Buffer()
+    got = []
+    stream = ('<defNumberVector device="A" name="P" state="Ok" perm="rw"><defNumber name="x" format="%f" min="0" max="9" step="1">1</defNumber></defNumberVector>'
+              '<setNumberVector device="A" name="P"><oneNumber name="x">2</oneNumber></setNumberVector>'
+              '<setNumberVector device="A" name="P" state="Busy"><oneNumber name="x">3</oneNumber></setNumberVector>')
+    b.append(stream)
+    b.process(lambda m: (got.append(m), c.process_message(m)))
+    cases += 1
+    shown = c.devices["A"].vectors["P"].elements["x"].value if "A" in c.devices else None
+    if len(got) != 3 or shown != "3":
+        return {"reproduced": True, "cases": cases, "detail": "an update without state is not applied: %d of 3 messages delivered, the client shows x=%r" % (len(got), shown),
+                "failures": [{"detail": "a set*Vector without the (optional) state attribute is rejected by the parser: the update is lost and, being a complete element the parser refuses, it blocks "
+                                        "the updates behind it until the junk threshold is exceeded (%d of 3 messages delivered, client shows x=%r)" % (len(got), shown),
+                              "reproduced": True, "witness": {"replay_kind": "client.step", "class": "set-without-state"}}]}
     return {"reproduced": False, "detail": "client agrees with the reference interpreter on %d steps" % cases, "cases": cases, "failures": []}
 
 
